@@ -90,29 +90,54 @@ def splitOnOff (toks : List String) : Option (List String × List String) :=
     | _ => none
   | _ => none
 
+/-- the operation's tokens split at "/" into the sequences of one stream -/
+def splitSeqs (toks : List String) : List (List String) :=
+  toks.foldr (fun t acc =>
+    if t == "/" then [] :: acc
+    else match acc with
+      | cur :: rest => (t :: cur) :: rest
+      | [] => [[t]]) [[]]
+
+def parseSeqs (toks : List String) : Option (List (List Message)) := (splitSeqs toks).mapM fun g => g.mapM parseMessage
+
+def printSeqs (seqs : List (List Message)) : String := " / ".intercalate (seqs.map printMsgs)
+
+def joinWords (s : String) : String := " ".intercalate ((s.splitOn " ").filter (· ≠ ""))
+
+/-- C05 on one decoded sequence -/
+def checkSeq (ms on off : List Message) : Option String :=
+  match specOn ms with
+  | none => none
+  | some spec =>
+    if on.length != ms.length || off.length != ms.length || spec.length != ms.length then some "message-count"
+    else
+      let rs := (List.range ms.length).filterMap fun i =>
+        match ms[i]?, on[i]?, spec[i]?, off[i]? with
+        | some w, some a, some b, some c => (checkMsg w a b c).map fun e => s!"msg{i}:{e}"
+        | _, _, _, _ => some "index"
+      rs.head?
+
 def hExpand : Handler := fun r =>
-  match r.args.mapM parseMessage with
+  match parseSeqs r.args with
   | none => "bad-op"
-  | some ms =>
+  | some seqs =>
     match r.mode with
-    | .model => ("on " ++ printMsgs (modelOn ms) ++ " off " ++ printMsgs ms).trimAscii.toString
+    | .model => joinWords ("on " ++ printSeqs (seqs.map modelOn) ++ " off " ++ printSeqs seqs)
     | .spec => "n/a"
-    | .kf => kfClass ms
+    | .kf => if seqs.any fun ms => Fit.ExpandSpec.seedsOtherUnit profile ms then "KF-C05-2" else "-"
     | .prop =>
       match splitOnOff ((r.impl.splitOn " ").filter (· ≠ "")) with
       | none => "fail:not-decoded:" ++ r.impl
       | some (on, off) =>
-        match on.mapM parseMessage, off.mapM parseMessage with
+        match parseSeqs on, parseSeqs off with
         | some on, some off =>
-          match specOn ms with
-          | none => "n/a"
-          | some spec =>
-          if on.length != ms.length || off.length != ms.length || spec.length != ms.length then "fail:message-count"
+          if on.length != seqs.length || off.length != seqs.length then "fail:sequence-count"
+          else if seqs.all fun ms => (specOn ms).isNone then "n/a"
           else
-            let rs := (List.range ms.length).filterMap fun i =>
-              match ms[i]?, on[i]?, spec[i]?, off[i]? with
-              | some w, some a, some b, some c => (checkMsg w a b c).map fun e => s!"msg{i}:{e}"
-              | _, _, _, _ => some "index"
+            let rs := (List.range seqs.length).filterMap fun k =>
+              match seqs[k]?, on[k]?, off[k]? with
+              | some ms, some a, some c => (checkSeq ms a c).map fun e => s!"seq{k}:{e}"
+              | _, _, _ => some "index"
             match rs with
             | [] => "ok"
             | e :: _ => "fail:" ++ e
